@@ -326,7 +326,7 @@ func TestFraming(t *testing.T) {
 	vf.Rapid(s, vf.N(114*25, 114*600), func(t *rapid.T) msgCase {
 		max := 64
 		if rapid.IntRange(0, 19).Draw(t, "big") == 0 {
-			max = vf.N(2000, 60000)
+			max = vf.Size(2000, 60000)
 		}
 		return genMsg(t, max)
 	}, checkFraming, func(c msgCase) bool { return len(c.Fields) > 0 })
